@@ -77,7 +77,10 @@ def maps(chk):
             w, h = min(w, mw), min(h, mh)
             ox = rng.choice([0, min(1, mw - w), mw - w, rng.randrange(0, mw - w + 1)])
             oz = rng.choice([0, min(1, mh - h), mh - h, rng.randrange(0, mh - h + 1)])
-            px = bytes(rng.randrange(256) for _ in range(w * h))
+            npx = w * h
+            if rng.random() < 0.3 and w > 1:
+                npx -= rng.randrange(1, w)              # an incomplete last row: pixel i still lands at (i mod width, i div width)
+            px = bytes(rng.randrange(256) for _ in range(npx))
             pk = M()
             pk.map_id, pk.scale, pk.icons = mid, rng.randrange(5), []
             pk.width, pk.height, pk.offset, pk.pixels = w, h, (ox, oz), px
